@@ -272,6 +272,20 @@ func (w *sworld) invariants() (oracle, info string) {
 			return "ok-mismatch", fmt.Sprintf("handle #%d is on a stack but reports !Ok()", id)
 		}
 	}
+	// look-ahead by Push+Pop, see lworld.invariants.
+	for si := 0; si < 2; si++ {
+		name, s, vs := sn(si), w.S[si], w.vals(si)
+		s.Push(probe)
+		if _, o, i := checkStack(s, append([]int{probe}, vs...), name+" after a further Push", false); o != "" {
+			return "not-usable-after", i
+		}
+		if e := s.Pop(); !e.Ok() || e.Value() != probe || e.In(s) {
+			return "not-usable-after", fmt.Sprintf("%s: Push(%d) then Pop() returned Ok=%v value=%d In=%v", name, probe, e.Ok(), e.Value(), e.In(s))
+		}
+		if _, o, i := checkStack(s, vs, name+" after Push+Pop", false); o != "" {
+			return "not-usable-after", i
+		}
+	}
 	return "", ""
 }
 
@@ -359,6 +373,8 @@ func sopRemove(s sel) sop {
 			o.class, o.rejected = "Item.Remove-root", true
 		case w.m[r.id].loc < 0:
 			o.class, o.rejected = "Item.Remove-detached", true
+		case w.seq[w.m[r.id].loc][0] == r.id:
+			o.class = "Item.Remove-top" // own tag: the head item takes a different path through Remove
 		}
 		ret := r.e.Remove()
 		if o.rejected {
@@ -500,7 +516,7 @@ func stackSpec(depth int, deadline time.Time) *seq.Spec {
 			}
 			return seq.Result{Fail: f, Info: info}
 		}
-		return seq.Result{Key: w.key()}
+		return seq.Result{Key: w.key() + unmerged(hist)}
 	}
 	return sp
 }
